@@ -95,12 +95,30 @@ pub fn gen_line(r: &mut Rng) -> String {
             format!("swap {} {} {} {}", pool_str(&p), p.assets[oi].denom, offer, p.assets[ai].denom)
         }
         6 | 7 | 8 | 9 | 10 | 11 | 12 => {
-            let p = gen_pool(r, true);
+            let mut p = gen_pool(r, true);
             let n = p.assets.len();
             let oi = r.below(n as u64) as usize;
             let mut ai = r.below(n as u64) as usize;
             if ai == oi && !r.chance(1, 30) { ai = (oi + 1) % n; }
-            let offer = gen_offer(r, p.assets[oi].amount.u128());
+            let mut offer = gen_offer(r, p.assets[oi].amount.u128());
+            // directed: an off-peg pool (the ask asset plentiful, the offer asset scarce: 10:1 … 300:1 in whole tokens) whose
+            // offer asset has MORE decimals than the ask asset, and an offer nominally around ONE smallest ask unit — worth
+            // several ask units at the pool's marginal price (sub-unit trades must be priced by the invariant, not by the peg)
+            if ai != oi && r.chance(1, 6) {
+                let (od, ad) = [(18u8, 6u8), (18, 8), (12, 6), (8, 6), (18, 12)][r.below(5) as usize];
+                p.asset_decimals[oi] = od; p.asset_decimals[ai] = ad;
+                for k in 0..n { if k != oi && k != ai { p.asset_decimals[k] = ad; } }
+                let whole = 100 + r.below(100_000) as u128;
+                let skew = [10u128, 30, 100, 300][r.below(4) as usize];
+                for k in 0..n {
+                    let dec = p.asset_decimals[k] as u32;
+                    let tokens = if k == oi { whole } else { whole * skew };
+                    p.assets[k].amount = Uint128::new(tokens * 10u128.pow(dec));
+                }
+                if let PoolType::StableSwap { .. } = p.pool_type { p.pool_type = PoolType::StableSwap { amp: [1u64, 10, 85, 100, 1000][r.below(5) as usize] }; }
+                let unit = 10u128.pow((od - ad) as u32);       // one ask unit, nominally, in offer units
+                offer = match r.below(6) { 0 => unit - 1, 1 => unit / 2, 2 => unit / 4, 3 => unit, 4 => unit + 1, _ => unit * (1 + r.below(5) as u128) - 1 };
+            }
             format!("swap {} {} {} {}", pool_str(&p), p.assets[oi].denom, offer, p.assets[ai].denom)
         }
         13 | 14 => {
